@@ -15,7 +15,7 @@ Open Scope Z_scope.
 
 Inductive value :=
 | VEmpty
-| VNum (ty : Z) (n : Z)                 (* Boolean 1, Byte 3, Int32 6 *)
+| VNum (ty : Z) (n : Z)                 (* Boolean 1, Byte 3, Int32 6, UInt32 7 *)
 | VStr (s : option (list Z))            (* String 12: UTF-8 bytes, None = null *)
 | VBs (s : option (list Z))             (* ByteString 15 *)
 | VArr (ety : Z) (vs : list value).     (* one-dimensional array of scalars *)
@@ -209,7 +209,13 @@ Definition set_range_of (full : value) (r : nrange) (other : value) : outcome va
        end.
 
 (* ---- the variable -------------------------------------------------------------------------- *)
-Record var := mk_var { v_ual : Z; v_dtype : Z; v_rank : Z; v_value : value }.
+(* user access level, data type, value rank, value, write mask (-1 = not set), array dimensions set *)
+Record var := mk_var { v_ual : Z; v_dtype : Z; v_rank : Z; v_value : value; v_wmask : Z; v_dims : bool }.
+Definition with_value (x : var) (nv : value) : var := mk_var (v_ual x) (v_dtype x) (v_rank x) nv (v_wmask x) (v_dims x).
+Definition with_ual (x : var) (n : Z) : var := mk_var n (v_dtype x) (v_rank x) (v_value x) (v_wmask x) (v_dims x).
+Definition with_rank (x : var) (n : Z) : var := mk_var (v_ual x) (v_dtype x) n (v_value x) (v_wmask x) (v_dims x).
+Definition with_wmask (x : var) (n : Z) : var := mk_var (v_ual x) (v_dtype x) (v_rank x) (v_value x) n (v_dims x).
+Definition with_dims (x : var) : var := mk_var (v_ual x) (v_dtype x) (v_rank x) (v_value x) (v_wmask x) true.
 
 (* AddressSpace::is_subtype over the HasSubtype references (base, child) *)
 Fixpoint is_subtype (fuel : nat) (subs : list (Z * Z)) (sub base : Z) : bool :=
@@ -240,12 +246,16 @@ Definition type_compatible (subs : list (Z * Z)) (x : var) (v : value) : bool :=
 Definition to_byte_array (s : option (list Z)) : value :=
   VArr 3 (map (fun b => VNum 3 b) (match s with Some l => l | None => [] end)).
 
+(* the special case of Variable::set_value: a byte string written to a byte array variable *)
+Definition to_stored (rank dtype : Z) (v : value) : value :=
+  match v with
+  | VBs s => if rank_is_byte_array rank && (dtype =? 3) then to_byte_array s else v
+  | _ => v
+  end.
+
 (* Variable::set_value -> the new stored value *)
 Definition set_value (x : var) (r : nrange) (v : value) : outcome value :=
-  let v' := match v with
-            | VBs s => if rank_is_byte_array (v_rank x) && (v_dtype x =? 3) then to_byte_array s else v
-            | _ => v
-            end in
+  let v' := to_stored (v_rank x) (v_dtype x) v in
   match r with
   | NNone => Ok v'
   | _ => set_range_of (v_value x) r v'
@@ -254,8 +264,9 @@ Definition set_value (x : var) (r : nrange) (v : value) : outcome value :=
 Definition user_can_read (x : var) : bool := Z.testbit (v_ual x) 0.    (* UserAccessLevel::CURRENT_READ *)
 Definition user_can_write (x : var) : bool := Z.testbit (v_ual x) 1.   (* UserAccessLevel::CURRENT_WRITE *)
 
-(* attributes that get_attribute returns Some for (no description, write masks, sampling interval) *)
-Definition var_attrs (has_dims : bool) : list Z := [1; 2; 3; 4; 13; 14; 15; 17; 18; 20] ++ (if has_dims then [16] else []).
+(* attributes that get_attribute returns Some for (no description, user write mask, sampling interval) *)
+Definition var_attrs (x : var) : list Z :=
+  [1; 2; 3; 4; 13; 14; 15; 17; 18; 20] ++ (if v_dims x then [16] else []) ++ (if 0 <=? v_wmask x then [6] else []).
 Definition obj_attrs : list Z := [1; 2; 3; 4; 12].
 Definition mem (a : Z) (l : list Z) : bool := existsb (Z.eqb a) l.
 Definition valid_attr (a : Z) : bool := (1 <=? a) && (a <=? 27).
@@ -265,7 +276,7 @@ Definition enc_supported (e : Z) : bool := (e =? 0) || (e =? 1).
 Record rres := mk_rres { rr_status : Z; rr_value : option value }.
 
 (* AttributeService::read_node_value *)
-Definition read (legacy has_dims : bool) (x : var) (node attr : Z) (range : option (list Z)) (enc : Z) : outcome rres :=
+Definition read (legacy : bool) (x : var) (node attr : Z) (range : option (list Z)) (enc : Z) : outcome rres :=
   let bad c := Ok (mk_rres c None) in
   if negb ((node =? 1) || (node =? 2)) then bad 1
   else if negb (valid_attr attr) then bad 2
@@ -282,9 +293,38 @@ Definition read (legacy has_dims : bool) (x : var) (node attr : Z) (range : opti
                | Err c => bad c
                | Panic => Panic
                end
-             else if mem attr (var_attrs has_dims) then Ok (mk_rres 0 None) else bad 2
+             else if mem attr (var_attrs x) then Ok (mk_rres 0 None) else bad 2
            else if mem attr obj_attrs then Ok (mk_rres 0 None) else bad 2
        end.
+
+(* the WriteMask bit that is_writable tests for an attribute other than a variable's Value *)
+Definition attr_bit (a : Z) : option Z :=
+  match a with
+  | 1 => Some 14 | 2 => Some 13 | 3 => Some 2 | 4 => Some 6 | 5 => Some 5 | 6 => Some 20 | 7 => Some 18
+  | 8 => Some 11 | 9 => Some 15 | 10 => Some 10 | 11 => Some 3 | 12 => Some 7 | 14 => Some 4 | 15 => Some 19
+  | 16 => Some 1 | 17 => Some 0 | 18 => Some 16 | 19 => Some 12 | 20 => Some 9 | 21 => Some 8 | 22 => Some 17
+  | 23 => Some 22 | 24 => Some 23 | 26 => Some 24 | 27 => Some 25
+  | _ => None
+  end.
+Definition mask_allows (x : var) (a : Z) : bool :=
+  match attr_bit a with Some b => (0 <=? v_wmask x) && Z.testbit (v_wmask x) b | None => false end.
+
+Definition is_u32 (v : value) : bool := match v with VNum 7 _ => true | _ => false end.
+(* Variable::set_attribute / Base::set_attribute for an attribute other than Value:
+   status and the variable afterwards (only the effects that later reads and writes can see) *)
+Definition set_attr (x : var) (a : Z) (v : value) : Z * var :=
+  match a with
+  | 17 => match v with VNum 3 _ => (0, x) | _ => (9, x) end
+  | 18 => match v with VNum 3 n => (0, with_ual x n) | _ => (9, x) end
+  | 15 => match v with VNum 6 n => (0, with_rank x n) | _ => (9, x) end
+  | 20 => match v with VNum 1 _ => (0, x) | _ => (9, x) end
+  | 16 => match v with VArr _ vs => if forallb is_u32 vs then (0, with_dims x) else (9, x) | _ => (9, x) end
+  | 2 => match v with VNum 6 _ => (0, x) | _ => (9, x) end
+  | 6 => match v with VNum 7 n => (0, with_wmask x n) | _ => (9, x) end
+  | 7 => match v with VNum 7 _ => (0, x) | _ => (9, x) end
+  | 1 | 3 | 4 | 5 | 14 | 19 => (9, x)     (* NodeId, QualifiedName, LocalizedText, Double: not among the values *)
+  | _ => (2, x)
+  end.
 
 (* AttributeService::write_node_value -> status and the variable afterwards *)
 Definition write (subs : list (Z * Z)) (x : var) (node attr : Z) (range : option (list Z)) (v : option value)
@@ -292,9 +332,9 @@ Definition write (subs : list (Z * Z)) (x : var) (node attr : Z) (range : option
   let bad c := Ok (c, x) in
   if negb ((node =? 1) || (node =? 2)) then bad 1
   else if negb (valid_attr attr) then bad 2
-  else
-    (* is_writable: the user access level for a variable's value; write masks are not set *)
-    if negb ((node =? 1) && (attr =? 13) && user_can_write x) then bad 7
+  else if attr =? 13 then
+    (* is_writable: the user access level for a variable's value; the object has no write mask *)
+    if negb ((node =? 1) && user_can_write x) then bad 7
     else match parse_range (range_str range) with
          | None => bad 3
          | Some r =>
@@ -303,11 +343,21 @@ Definition write (subs : list (Z * Z)) (x : var) (node attr : Z) (range : option
              | Some v =>
                  if negb (type_compatible subs x v) then bad 9
                  else match set_value x r v with
-                      | Ok nv => Ok (0, mk_var (v_ual x) (v_dtype x) (v_rank x) nv)
+                      | Ok nv => Ok (0, with_value x nv)
                       | Err c => bad c
                       | Panic => Panic
                       end
              end
+         end
+  else
+    (* is_writable: the write mask bit of the attribute *)
+    if negb ((node =? 1) && mask_allows x attr) then bad 7
+    else match range with
+         | Some _ => bad 8     (* an index range that is not the null string *)
+         | None => match v with
+                   | None => bad 9
+                   | Some v => Ok (set_attr x attr v)
+                   end
          end.
 
 (* ---- canonical encoding of values ----------------------------------------------------------- *)
@@ -329,32 +379,35 @@ Definition enc_value (v : value) : list Z :=
 
 (* ---- correspondence interface ----------------------------------------------------------------- *)
 Record case := mk_case {
-  c_subs : list (Z * Z); c_al : Z; c_ual : Z; c_dtype : Z; c_rank : Z; c_init : value; c_ops : list op }.
+  c_subs : list (Z * Z); c_al : Z; c_ual : Z; c_dtype : Z; c_rank : Z; c_wmask : Z; c_init : value; c_ops : list op }.
 
 Definition is_array (v : value) : bool := match v with VArr _ _ => true | _ => false end.
-Definition init_var (c : case) : var := mk_var (c_ual c) (c_dtype c) (c_rank c) (c_init c).
+(* the constructor stores the initial value through set_value (data type and rank already set);
+   the array dimensions are inferred from the value as given *)
+Definition init_var (c : case) : var :=
+  mk_var (c_ual c) (c_dtype c) (c_rank c) (to_stored (c_rank c) (c_dtype c) (c_init c)) (c_wmask c) (is_array (c_init c)).
 
-Fixpoint run_ops (legacy has_dims : bool) (subs : list (Z * Z)) (x : var) (ops : list op) : list Z :=
+Fixpoint run_ops (legacy : bool) (subs : list (Z * Z)) (x : var) (ops : list op) : list Z :=
   match ops with
   | [] => []
   | Read node attr range enc :: ops' =>
-      match read legacy has_dims x node attr range enc with
+      match read legacy x node attr range enc with
       | Ok r => rr_status r ::
                 (if attr =? 13 then match rr_value r with Some v => enc_value v | None => [-1] end else [])
-                ++ run_ops legacy has_dims subs x ops'
-      | Err c => c :: run_ops legacy has_dims subs x ops'
-      | Panic => -2 :: run_ops legacy has_dims subs x ops'
+                ++ run_ops legacy subs x ops'
+      | Err c => c :: run_ops legacy subs x ops'
+      | Panic => -2 :: run_ops legacy subs x ops'
       end
   | Write node attr range v :: ops' =>
       match write subs x node attr range v with
-      | Ok (st, x') => st :: run_ops legacy has_dims subs x' ops'
-      | Err c => c :: run_ops legacy has_dims subs x ops'
-      | Panic => -2 :: run_ops legacy has_dims subs x ops'
+      | Ok (st, x') => st :: run_ops legacy subs x' ops'
+      | Err c => c :: run_ops legacy subs x ops'
+      | Panic => -2 :: run_ops legacy subs x ops'
       end
   end.
 
 Definition run_with (legacy : bool) (c : case) : list Z :=
-  run_ops legacy (is_array (c_init c)) (c_subs c) (init_var c) (c_ops c).
+  run_ops legacy (c_subs c) (init_var c) (c_ops c).
 Definition run (c : case) : list Z := run_with false c.
 
 (* ---- the property on an observed output -------------------------------------------------------- *)
@@ -364,6 +417,8 @@ Definition run (c : case) : list Z := run_with false c.
    - a Write of the variable's value that reports Good: the user access level has CURRENT_WRITE
      and the type is compatible; the recorded value becomes what was written (for an index range:
      the recorded array with the written elements in place);
+   - a Write of another attribute that reports Good: the write mask has the attribute's bit; the
+     record follows (a new user access level, value rank, write mask, ...);
    - any other Write status: the recorded value is unchanged;
    - a Read of the whole value that reports Good returns the recorded value; a Read with an index
      range returns the corresponding part of the recorded value; a Read is never Good when the
@@ -420,10 +475,7 @@ Definition spec_overwrite (dst src : list value) (lo hi : Z) : list value :=
 
 (* what a successful write must leave in the variable *)
 Definition spec_written (x : var) (cur : value) (r : nrange) (v : value) : option value :=
-  let v' := match v with
-            | VBs s => if rank_is_byte_array (v_rank x) && (v_dtype x =? 3) then to_byte_array s else v
-            | _ => v
-            end in
+  let v' := to_stored (v_rank x) (v_dtype x) v in
   match r, cur, v' with
   | NNone, _, _ => Some v'
   | NIndex i, VArr t vs, VArr _ (o :: _) => if i <? len vs then Some (VArr t (spec_overwrite vs [o] i i)) else None
@@ -476,16 +528,24 @@ Fixpoint oracle_ops (subs : list (Z * Z)) (x : var) (ops : list op) (out : list 
       | st :: out1 =>
           if st <? 0 then false
           else if st =? 0 then
-            (node =? 1) && (attr =? 13) && user_can_write x &&
-            match v, parse_range (range_str range) with
-            | Some v, Some r =>
-                type_compatible subs x v &&
-                match spec_written x (v_value x) r v with
-                | Some nv => oracle_ops subs (mk_var (v_ual x) (v_dtype x) (v_rank x) nv) ops' out1
-                | None => false
-                end
-            | _, _ => false
-            end
+            if attr =? 13 then
+              (node =? 1) && user_can_write x &&
+              match v, parse_range (range_str range) with
+              | Some v, Some r =>
+                  type_compatible subs x v &&
+                  match spec_written x (v_value x) r v with
+                  | Some nv => oracle_ops subs (with_value x nv) ops' out1
+                  | None => false
+                  end
+              | _, _ => false
+              end
+            else
+              (* another attribute of the variable: the write mask allows it; the record follows *)
+              (node =? 1) && mask_allows x attr &&
+              match v with
+              | Some v => oracle_ops subs (snd (set_attr x attr v)) ops' out1
+              | None => false
+              end
           else oracle_ops subs x ops' out1
       | [] => false
       end
